@@ -22,6 +22,7 @@ contract(DD + '::DOEDriver._run_case', ['C23'],
              # every generated (name, value) pair is assigned exactly once, in order, before the model runs
              "len(ghost('sets')) == 3 and ghost('ran_after') == 3",
              "ghost('sets')[0][0] == 'x' and ghost('sets')[1][0] == 'y' and ghost('sets')[2][0] == 'z'",
+             "len(ghost('sets')[0][1]) == n and len(ghost('sets')[2][1]) == m",
              "all(ghost('sets')[0][1][i] == case[0][1][i] for i in range(n))",
              "ghost('sets')[1][1] == case[1][1]",
              "all(ghost('sets')[2][1][i] == case[2][1][i] for i in range(m))"],
